@@ -163,7 +163,7 @@ BUILTIN_EXC = ["ValueError", "TypeError", "AssertionError", "IndexError", "KeyEr
 BUILTIN_TYPES = ["int", "float", "str", "list", "tuple", "dict", "complex", "bool", "object"]
 BUILTIN_FUNCS = ["len", "range", "abs", "sum", "max", "min", "float", "int", "list", "tuple", "reversed",
                  "enumerate", "isinstance", "type", "eval", "super", "pow", "round", "sorted", "dir", "print",
-                 "hasattr", "zip", "str", "bool", "complex", "property", "any", "all", "dict"]
+                 "hasattr", "zip", "str", "bool", "complex", "property", "any", "all", "dict", "globals"]
 
 NOOP_LIB_PREFIXES = ("logging.", "warnings.", "pylab.", "matplotlib.")
 
@@ -649,6 +649,10 @@ class Interp:
             return "<file>"
         if name.startswith("c_") or name == "POINTER":
             return LibRef("ctypes." + name)          # `from ctypes import *`
+        import builtins as _b
+        if hasattr(_b, name):
+            # a genuine Python builtin this interpreter does not model: the real program does NOT raise NameError here
+            raise Unsupported("builtin %s is not modelled" % name)
         raise RaiseSig("NameError", "name %s is not defined" % name)
 
     # ---- statements ----------------------------------------------------------------
@@ -853,7 +857,16 @@ class Interp:
         elif isinstance(t, ast.Subscript):
             cont = self.eval(t.value, frame)
             cur = self.getitem(cont, t.slice, frame)
+            if isinstance(cur, Arr) and isinstance(cont, Arr) and getattr(cur, "_view_of", None) is not None:
+                # X[s] op= v  is  X[s] = X[s] op v  with the right-hand side evaluated first: the value read is a snapshot of
+                # the slice, not a live alias of X (so the write below is not a write "through a view")
+                snap = cur.copy()
+                if cont._views:
+                    cont._views = [r for r in cont._views if r() is not None and r() is not cur] or None
+                cur._view_of = None
+                cur = snap
             new = self.binop(st.op, cur, self.eval(st.value, frame))
+            cur = None
             self.setitem(cont, t.slice, new, frame)
         else:
             raise Unsupported("augmented assignment target")
@@ -1127,7 +1140,14 @@ class Interp:
             return v
         if isinstance(e.op, ast.Not):
             if hasattr(v, "e") and not self.dom.is_scalar(v):
-                return V.b_not(v)
+                r = V.b_not(v)
+                # Python's `not` always yields a genuine bool (never a numpy.bool_): remember it, so that a later
+                # `r is True` / `r is False` means what it says
+                pb = self.__dict__.setdefault("_pybools", [])
+                if len(pb) > 2000:
+                    del pb[:1000]
+                pb.append(r)
+                return r
             return not self.truth(v)
         raise Unsupported("unary operator")
 
@@ -1245,6 +1265,9 @@ class Interp:
         if isinstance(a, bool) or isinstance(b, bool):
             if isinstance(a, bool) and isinstance(b, bool):
                 return a == b
+            sym_, const_ = (a, b) if isinstance(b, bool) else (b, a)
+            if any(x is sym_ for x in self.__dict__.get("_pybools", ())):
+                return sym_ if const_ else V.b_not(sym_)       # a genuine Python bool: identity with True / False is its value
             if hasattr(a, "e") or hasattr(b, "e"):
                 # `x is True` where x is a symbolic numpy bool: numpy.bool_ is not the
                 # singleton True, but the code base relies on `== True` / `is True` for
@@ -1370,7 +1393,7 @@ class Interp:
                 kwargs.update(d)
             else:
                 kwargs[kw.arg] = self.eval(kw.value, frame)
-        if isinstance(fn, BuiltinFn) and fn.name in ("eval", "super"):
+        if isinstance(fn, BuiltinFn) and fn.name in ("eval", "super", "globals"):
             return self.call_builtin(fn.name, args, kwargs, frame)
         return self.call(fn, args, kwargs)
 
@@ -1387,6 +1410,13 @@ class Interp:
         return self.index_value(cont, idx)
 
     def index_value(self, cont, idx):
+        if isinstance(cont, GlobalsView):
+            mod = cont.module
+            if isinstance(idx, str) and (idx in mod.functions or idx in mod.classes or idx in mod.global_nodes or idx in mod.imports):
+                return self.module_attr(mod, idx)
+            if not isinstance(idx, str):
+                raise Unsupported("globals()[non-constant]")
+            raise RaiseSig("KeyError", str(idx))
         if isinstance(cont, dict):
             for k, v in cont.items():
                 if self.py_equal(idx, k) is True if not V.is_num(idx) else (V.is_num(k) and V.s_eq(idx, k) is True):
@@ -1411,12 +1441,36 @@ class Interp:
                 return cont.slice(idx[1:])
             if isinstance(idx, Arr):
                 if idx.dtype == "bool":
-                    raise Unsupported("boolean mask indexing")
+                    # x[mask] is x[where(mask)[0]] by definition; `where` is a library contract (concrete masks)
+                    pos = self.call_lib("numpy.where", [idx], {})
+                    pos = pos[0] if isinstance(pos, (tuple, list)) else pos
+                    return self.index_value(cont, pos)
                 return cont.take(idx)
             if isinstance(idx, tuple):
                 if len(idx) == 1:
                     return self.index_value(cont, idx[0])
                 return self.lib.nd_index(self, cont, idx)
+            if isinstance(idx, Arr2):
+                if idx.dtype not in ("int",):
+                    raise Unsupported("indexing a 1-D array with a 2-D array of dtype %s" % idx.dtype)
+                # a[I] for a 2-D integer index array I: the array of I's shape with entries a[I[i, j]].  numpy checks every index
+                # when the result is created: do the same once, for an arbitrary position (i0, j0) of I
+                s_, si, n_ = cont.snap(), idx.snap(), cont.n
+                if V.is_conc(idx.r) and V.is_conc(idx.c) and int(idx.r) * int(idx.c) <= 4096 and not hasattr(self.dom, "fresh_int"):
+                    for i in range(int(idx.r)):
+                        for j in range(int(idx.c)):
+                            self._index_check(V.norm_index(si(i, j), n_), n_)
+                elif hasattr(self.dom, "fresh_int"):
+                    i0, j0 = self.dom.fresh_int("fi"), self.dom.fresh_int("fj")
+                    self.assume(V.b_and(V.b_and(V.s_cmp(">=", i0, 0), V.s_cmp("<", i0, idx.r)),
+                                        V.b_and(V.s_cmp(">=", j0, 0), V.s_cmp("<", j0, idx.c))))
+                    self._index_check(V.norm_index(si(i0, j0), n_), n_)
+                else:
+                    raise Unsupported("fancy indexing with an index array of symbolic shape in this domain")
+                return Arr2.build(idx.r, idx.c, lambda i, j: s_(V.norm_index(si(i, j), n_)), cont.dtype)
+            if not V.is_num(idx):
+                # an index kind this interpreter does not model: NOT an IndexError of the program
+                raise Unsupported("index of type %s into a 1-D array" % type(idx).__name__)
             if isinstance(idx, Fraction) or (not V.s_is_int(idx)):
                 raise RaiseSig("IndexError", "only integers are valid indices")
             return cont.get(idx)
@@ -1604,6 +1658,11 @@ class Interp:
             return any(self.isinstance1(x, tt) for tt in ts)
         if name == "type":
             return self.type_of(args[0])
+        if name == "globals":
+            f = frame
+            while f is not None and getattr(f, "module", None) is None:
+                f = f.parent
+            return GlobalsView(f.module if f is not None else frame.module)
         if name == "eval":
             (s,) = args
             if not isinstance(s, str):
@@ -1741,6 +1800,13 @@ class DictMethod:
 class DictView:
     def __init__(self, items):
         self.items = items
+
+
+class GlobalsView:
+    """globals(): read-only view of the names a module defines (functions, classes, module-level assignments, imports)"""
+
+    def __init__(self, module):
+        self.module = module
 
 
 class StrMethod:
